@@ -26,6 +26,7 @@ import (
 	"strings"
 	"sync"
 	"sync/atomic"
+	"syscall"
 	"time"
 
 	"github.com/ARM-software/golang-utils/utils/commonerrors"
@@ -45,6 +46,8 @@ type Item struct {
 	Api   string `json:"api,omitempty"`
 	Stale bool   `json:"stale,omitempty"`
 	SilentAge int `json:"silent_age,omitempty"` // age used instead of Age when the holder's heartbeat writer has been found gone
+	Fault string `json:"fault,omitempty"` // backend fault injected on the read-side operation(s) of the step / macro: eacces | eperm | eio | enoent (the lie "does not exist"); the operation is not executed
+	FaultOp string `json:"fault_op,omitempty"` // macros: only operations of this kind are faulted (Stat | Lstat | Open | Readdir); empty = all read-side ones
 	Age   int    `json:"age,omitempty"` // step on a Stat: logical age (ms) of the time stamp presented; 0 with Stale = one hour
 	// macros (expanded into steps while running; the executed steps are what is recorded and replayed):
 	// K = "until": step C's API thread until it is blocked at operation Op on Class (the Skip+1-th time), without executing it;
@@ -60,6 +63,8 @@ type Scenario struct {
 	Ovr     []bool `json:"ovr"`
 	Objs    []int  `json:"objs,omitempty"` // lock object used by each API thread (default: one object each); threads sharing an object share its cancel store
 	Items   []Item `json:"items"`
+	Faults  []FaultAt `json:"faults,omitempty"` // one-off faults at given read-side positions, persistent faults on one kind of operation
+	FaultPm int    `json:"fault_pm,omitempty"` // generator: probability (per mille) of a one-off fault on each read-side operation
 	NoParent bool  `json:"noparent,omitempty"` // the directory the lock lives in does not exist (oracle only, no Coq case)
 	Short   bool   `json:"short,omitempty"` // the generator may issue LockWithTimeout calls whose deadline fires
 	Atomic  bool   `json:"atomic,omitempty"` // generate under the atomic-release restriction (no Mkdir of another contender succeeds inside a release window)
@@ -78,7 +83,22 @@ type SysSpec struct {
 	Dec     map[int]int `json:"dec,omitempty"`
 }
 
+// FaultAt: thread C's N-th read-side backend operation (counted from the start of the scenario) fails with Kind; with
+// Persist, every read-side operation Op of thread C does.
+type FaultAt struct {
+	C       int    `json:"c"`
+	N       int    `json:"n"`
+	Kind    string `json:"kind"`
+	Persist bool   `json:"persist,omitempty"`
+	Op      string `json:"op,omitempty"`
+}
+
+var faultErr = map[string]error{"eacces": syscall.EACCES, "eperm": syscall.EPERM, "eio": syscall.EIO, "enoent": syscall.ENOENT}
+
+func isReadOp(op string) bool { return op == "Stat" || op == "Lstat" || op == "Open" || op == "Readdir" }
+
 type StepObs struct {
+	Fl  int `json:"fl"` // injected fault: 0 none, 1 an error other than "does not exist", 2 "does not exist"
 	Op  int `json:"op"`
 	Res int `json:"res"`
 	Ret int `json:"ret"`
@@ -92,6 +112,7 @@ type Outcome struct {
 	Items   []Item
 	Obs     []*StepObs
 	Holders int
+	Reads   []int // read-side backend operations executed by each API thread
 	Bad     bool
 	Fails   []fail
 	Stuck   string
@@ -224,6 +245,9 @@ type contender struct {
 	alive   bool
 	eng     int // generation created and not yet begun to release, -1 none
 	mkThis  bool
+	nRead   int  // read-side backend operations of its API thread so far
+	awaitCheck bool // Unlock call: it has just removed a lock directory: its next Stat of the directory is Unlock's existence re-check
+	checkSeen, checkSaw, checkFault bool // that re-check happened / found a directory / was answered by an injected fault
 	relGen  int  // Unlock call: the generation this contender is releasing
 	rmOwn   bool // Unlock call: it has itself removed that generation
 	judged  int  // acquire call: generation present at its latest stale verdict (-2 none)
@@ -422,6 +446,7 @@ func (e *engine) exec(it Item) bool {
 			}
 			x.holds = false
 			x.relGen, x.rmOwn = x.eng, false
+			x.awaitCheck, x.checkSeen, x.checkSaw, x.checkFault = false, false, false, false
 			x.eng = -1
 		}
 		x.judged = -2
@@ -503,7 +528,7 @@ func (e *engine) exec(it Item) bool {
 				}
 				skip--
 			}
-			if !e.stepMain(Item{K: "step", C: it.C, Stale: it.Stale && !e.liveOwner() && e.curGen >= 0, Age: it.Age, SilentAge: it.SilentAge}) {
+			if !e.stepMain(Item{K: "step", C: it.C, Stale: it.Stale && !e.liveOwner() && e.curGen >= 0, Age: it.Age, SilentAge: it.SilentAge, Fault: it.Fault, FaultOp: it.FaultOp}) {
 				return false
 			}
 		}
@@ -622,8 +647,22 @@ func (e *engine) stepMain(it Item) bool {
 		e.out.Stuck = "API thread neither pending nor returned"
 		return false
 	}
+	// ---- backend fault on a read-side operation?
+	kind := ""
+	if isReadOp(p.Op) {
+		if it.Fault != "" && (it.FaultOp == "" || it.FaultOp == p.Op) {
+			kind = it.Fault
+		}
+		for _, f := range e.sc.Faults {
+			if f.C == c && ((!f.Persist && f.N == x.nRead) || (f.Persist && (f.Op == "" || f.Op == p.Op))) {
+				kind = f.Kind
+			}
+		}
+		x.nRead++
+	}
+	it.Fault, it.FaultOp = kind, ""
 	age := 0
-	if p.Op == "Stat" {
+	if p.Op == "Stat" && kind == "" {
 		if it.SilentAge > 0 && e.curGen >= 0 && e.cs[e.creator[e.curGen]].silent {
 			it.Age = it.SilentAge
 		}
@@ -640,7 +679,11 @@ func (e *engine) stepMain(it Item) bool {
 	}
 	stale := age > staleMs
 	it.Stale, it.Age = stale, age
-	res := e.s.Release(p, time.Duration(age)*time.Millisecond)
+	res := e.s.ReleaseFault(p, time.Duration(age)*time.Millisecond, faultErr[kind])
+	if p.Op == "Stat" && p.Class == "dir" && x.api == "Unlock" && x.awaitCheck {
+		// the first look at the lock path after a removal: the existence re-check of Unlock (lockfile.go:208)
+		x.awaitCheck, x.checkSeen, x.checkSaw, x.checkFault = false, true, res == "isdir", kind != ""
+	}
 	if stale && (res == "isdir" || res == "isfile") {
 		x.judged = e.curGen
 		x.win = true
@@ -649,6 +692,15 @@ func (e *engine) stepMain(it Item) bool {
 		x.win = false
 	}
 	o := &StepObs{Op: opCode(p.Op, p.Class, p.N), Res: resCode(res)}
+	switch kind {
+	case "":
+	case "enoent":
+		o.Fl = 2
+		e.out.Kinds["fault:"+kind+":"+p.Op]++
+	default:
+		o.Fl = 1
+		e.out.Kinds["fault:"+kind+":"+p.Op]++
+	}
 	e.out.Kinds[fmt.Sprintf("%s:%s:%s:%s", x.api, p.Op, p.Class, res)]++
 	// ---- the harness's own ghost + oracle ----
 	switch {
@@ -664,6 +716,14 @@ func (e *engine) stepMain(it Item) bool {
 			e.out.Bad = true
 			sig := ""
 			switch {
+			case x.api == "Unlock" && y != c && x.rmOwn && x.checkSeen && x.checkFault:
+				// the re-check after the removal was answered by an injected fault while the directory was ABSENT, Unlock
+				// retried all the same, and the successor's Mkdir came after the check: not K1 (where the check told the truth)
+				sig = "live-lock-removed:after-faulty-existence-check"
+				e.fail(sig, fmt.Sprintf("contender %d, inside Unlock, could not examine the lock path after removing its directory (injected fault), retried, and removed the directory contender %d had created after that check and still holds", c, y))
+			case x.api == "Unlock" && y != c && x.rmOwn && !(x.checkSeen && x.checkSaw):
+				sig = "live-lock-removed:retry-after-absent-existence-check"
+				e.fail(sig, fmt.Sprintf("contender %d, inside Unlock, retried although its existence re-check had found nothing, and removed the directory contender %d holds", c, y))
 			case x.api == "Unlock" && y != c && x.rmOwn:
 				// Unlock had removed its own directory; its existence re-check saw the successor's; the retry removed it
 				sig = "K1-unlock-retry-destroys-successor-lock"
@@ -683,6 +743,9 @@ func (e *engine) stepMain(it Item) bool {
 		}
 		if x.api == "Unlock" && e.curGen == x.relGen {
 			x.rmOwn = true
+		}
+		if x.api == "Unlock" {
+			x.awaitCheck = true
 		}
 		e.curGen = -1
 	}
@@ -761,6 +824,9 @@ func (e *engine) finishCall(c int, o *StepObs) bool {
 }
 
 func (e *engine) finish() {
+	for _, x := range e.cs {
+		e.out.Reads = append(e.out.Reads, x.nRead)
+	}
 	for _, x := range e.cs {
 		if x.holds && x.alive {
 			e.out.Holders++
@@ -878,6 +944,11 @@ func (e *engine) generate(rng *rand.Rand, max int) {
 						break
 					}
 				}
+			}
+		}
+		if it.K == "step" && it.HB == 0 && e.sc.FaultPm > 0 {
+			if p := e.s.Peek(lsched.Main(it.C)); p != nil && isReadOp(p.Op) && rng.Intn(1000) < e.sc.FaultPm {
+				it.Fault = []string{"eacces", "eperm", "eio", "enoent"}[rng.Intn(4)]
 			}
 		}
 		if it.K == "step" && it.HB == 0 {
@@ -1125,7 +1196,7 @@ func coqCase(sc *Scenario, o *Outcome) string {
 				st = 1000
 			}
 			ob := o.Obs[i]
-			fmt.Fprintf(&b, "S_ %d %d %d %d %d %d", it.C, it.HB, st, ob.Op, ob.Res, ob.Ret)
+			fmt.Fprintf(&b, "S_ %d %d %d %d %d %d %d", it.C, it.HB, st, ob.Fl, ob.Op, ob.Res, ob.Ret)
 		}
 	}
 	fmt.Fprintf(&b, "]%%list %d %s %d %s)", o.Holders, h.Bool(o.Bad), o.Zombies, h.Bool(sc.Atomic))
@@ -1201,6 +1272,74 @@ func scK1b(backend string) *Scenario {
 		fin(0, false), // A removes B's directory
 		call(2, "TryLock"), fin(2, false),
 	)}
+}
+
+// Base schedules for the fault campaign (macros only, so that they survive the divergence a fault causes).
+func faultBases(quick bool) []*Scenario {
+	fff := []bool{false, false, false}
+	bases := []*Scenario{
+		// release, THEN acquire: A's Unlock runs up to and including its existence re-check before B acquires; A is then
+		// run to the end (in the unmodified code it has already returned), C tries, B releases, C acquires
+		{Tag: "faults:release-then-acquire", Backend: "os", Ovr: fff, Items: one(
+			call(0, "TryLock"), fin(0, false), hb(0, 0), hb(0, 0),
+			call(0, "Unlock"), until(0, "Remove", "dir", false), step(0), step(0),
+			call(1, "TryLock"), fin(1, false), fin(0, false), call(2, "TryLock"), fin(2, false),
+			call(1, "Unlock"), fin(1, false), call(2, "TryLock"), fin(2, false))},
+		// a dead holder, an overrider takes over, a third contender tries
+		{Tag: "faults:override", Backend: "os", Ovr: []bool{false, true, false}, Items: one(
+			call(0, "TryLock"), fin(0, false), hb(0, 0), hb(0, 0), kill(0),
+			call(1, "TryLock"), fin(1, true), call(2, "TryLock"), fin(2, false), call(1, "Unlock"), fin(1, false),
+			call(2, "TryLock"), fin(2, false))},
+		// live holder, contender and overrider look at it (fresh ages), holder releases, they acquire in turn
+		{Tag: "faults:contended", Backend: "os", Ovr: []bool{false, false, true}, Items: one(
+			call(0, "TryLock"), fin(0, false), hb(0, 0), hb(0, 0), call(1, "TryLock"), finAge(1, 30), call(2, "TryLock"), finAge(2, 60),
+			call(0, "Unlock"), fin(0, false), call(2, "TryLock"), fin(2, false), call(1, "TryLock"), fin(1, false),
+			call(2, "Unlock"), fin(2, false), call(1, "TryLock"), fin(1, false))},
+	}
+	k1 := scK1("os")
+	k1.Tag = "faults:K1"
+	bases = append(bases, k1)
+	if !quick {
+		k2, k1b := scK2("os"), scK1b("os")
+		k2.Tag, k1b.Tag = "faults:K2", "faults:K1b"
+		bases = append(bases, k2, k1b)
+	}
+	return bases
+}
+
+// faultCampaign: every base schedule with a ONE-OFF fault at every read-side position of every thread (releaser,
+// contender, overrider), and with a PERSISTENT fault on each kind of read-side operation of each thread.
+func faultCampaign(quick bool, runRoot string) []*job {
+	var jobs []*job
+	for bi, base := range faultBases(quick) {
+		clean := runScenario(base, runRoot)
+		kinds := []string{"eacces", "enoent"}
+		if bi == 0 || !quick {
+			kinds = []string{"eacces", "eperm", "eio", "enoent"}
+		}
+		for c, n := range clean.Reads {
+			for i := 0; i < n; i++ {
+				for _, k := range kinds {
+					sc := *base
+					sc.Tag = fmt.Sprintf("%s:%s@%d.%d", base.Tag, k, c, i)
+					sc.Faults = []FaultAt{{C: c, N: i, Kind: k}}
+					jobs = append(jobs, &job{sc: &sc})
+				}
+			}
+			if n == 0 {
+				continue
+			}
+			for _, op := range []string{"Stat", "Lstat", "Open", "Readdir"} {
+				for _, k := range []string{"eacces", "enoent"} {
+					sc := *base
+					sc.Tag = fmt.Sprintf("%s:persistent-%s-%s@%d", base.Tag, k, op, c)
+					sc.Faults = []FaultAt{{C: c, Kind: k, Persist: true, Op: op}}
+					jobs = append(jobs, &job{sc: &sc})
+				}
+			}
+		}
+	}
+	return jobs
 }
 
 func corners() []*Scenario {
@@ -1482,7 +1621,9 @@ func main() {
 		}
 		if o.Invalid != "" {
 			r.Count("invalid-item")
-			r.Note("scenario " + sc.Tag + "/" + sc.Backend + ": " + o.Invalid)
+			if !strings.HasPrefix(sc.Tag, "faults:") { // a fault may legitimately cut a schedule short
+				r.Note("scenario " + sc.Tag + "/" + sc.Backend + ": " + o.Invalid)
+			}
 		}
 		if emitCase && sc.Backend == "os" && !sc.NoParent {
 			term := coqCase(sc, o)
@@ -1513,6 +1654,8 @@ func main() {
 	for _, sc := range corners() {
 		jobs = append(jobs, &job{sc: sc})
 	}
+	// 2b. backend faults on every read-side operation of deterministic schedules
+	jobs = append(jobs, faultCampaign(!(r.Thorough() || r.Deep), runRoot)...)
 	// 3. seeded random schedules
 	nOs, nMem := r.N(300, 4000), r.N(40, 400)
 	for i := 0; i < nOs+nMem; i++ {
@@ -1531,6 +1674,10 @@ func main() {
 			tag = "random-atomic"
 		}
 		short := r.Rng.Intn(100) < 20
+		faultPm := 0
+		if r.Rng.Intn(100) < 30 {
+			faultPm = 5 + r.Rng.Intn(25) // one-off backend faults on 0.5 .. 3 % of the read-side operations
+		}
 		var objs []int
 		if n >= 3 && r.Rng.Intn(100) < 25 {
 			// threads 0 and 1 use one lock object
@@ -1541,7 +1688,7 @@ func main() {
 			objs[1] = 0
 			ovr[1] = ovr[0]
 		}
-		jobs = append(jobs, &job{sc: &Scenario{Tag: fmt.Sprintf("%s:%d", tag, i), Backend: b, Ovr: ovr, Objs: objs, Atomic: atomic, Short: short, Seed: 1 + r.Rng.Int63n(1<<40), Max: 200 + r.Rng.Intn(250)}})
+		jobs = append(jobs, &job{sc: &Scenario{Tag: fmt.Sprintf("%s:%d", tag, i), Backend: b, Ovr: ovr, Objs: objs, Atomic: atomic, Short: short, FaultPm: faultPm, Seed: 1 + r.Rng.Int63n(1<<40), Max: 200 + r.Rng.Intn(250)}})
 	}
 	budget := 100 * time.Second
 	if r.Thorough() || r.Deep {
